@@ -142,12 +142,13 @@ class QueueSink(Sink[Any]):
         self._foreach = foreach
 
     def write(self, item: Any) -> None:
-        try:
-            item = (item if self._foreach else [item])
-            for i in item:
+        #only errors of the queue itself are ignored (it was closed or its pipe is gone). The items can be
+        #a lazy pipeline so errors raised while iterating them belong to the pipeline and are not ours to drop.
+        for i in (item if self._foreach else [item]):
+            try:
                 self._queue.put(i)
-        except (EOFError,BrokenPipeError,AssertionError):
-            pass
+            except (EOFError,BrokenPipeError,AssertionError):
+                break
 
 class LambdaSink(Sink[Any]):
     """A sink which passes written items to a callable function."""
